@@ -53,7 +53,7 @@ int sim_tier_scale(void)
 
 /* ------------------------------------------------------------------ plan */
 const char *fo_names[FO_NMAX] = { "FULL", "SHORT", "EINTR", "EAGAIN", "EIO", "EMFILE", "ENOENT",
-                                  "ECONNREFUSED", "ECONNABORTED", "EADDRINUSE", "EPIPE", "EACCES" };
+                                  "ECONNREFUSED", "ECONNABORTED", "EADDRINUSE", "EPIPE", "EACCES", "ETRANSIENT" };
 const char *fc_names[FC_NMAX] = { "?", "read", "write", "accept", "close", "open", "connect", "socket", "bind", "listen", "?", "?" };
 
 void plan_init(plan_t *p, const char *prop, uint64_t seed)
